@@ -13,7 +13,8 @@
   factors, comments, copyright, `BA`) are parsed all the same, because a line that does not parse
   fails the record.
 -/
-import LMV.Model.ReaderCommon
+import LMV.Model.Jaspar
+import LMV.Model.Uniprobe
 import LMV.Lemmas.Stream
 
 namespace LMV
@@ -324,6 +325,88 @@ def toCounts {K : Nat} (asCount : α → Option Nat) (data : Option (Mat α K)) 
   match data with
   | none => none
   | some m => m.toLists.mapM fun row => row.mapM asCount
+
+/-! ### renderer of well-formed files -/
+
+/-- the lines of a TRANSFAC record the observable fields come from, in file order (any order, any
+    repetition: a later field line overrides an earlier one, as in the parser) -/
+inductive Item where
+  | ac (v : Bytes)
+  | id (v : Bytes)
+  | na (v : Bytes)
+  | de (v : Bytes)
+  | xx
+  | matrix (syms : List Nat) (rows : List (List Bytes))   -- `P0` line and the count rows (lexemes)
+
+def renderField (a b : UInt8) (v : Bytes) : Bytes := a :: b :: 0x20 :: 0x20 :: v ++ [0x0A]
+
+/-- the rows `01 …`, `02 …` of a matrix block: the row number, then every lexeme followed by a blank -/
+def renderRows : Nat → List (List Bytes) → Bytes
+  | _, [] => []
+  | i, lexs :: rest =>
+    Jaspar.digits (i + 1) ++ 0x20 :: lexs.flatMap (fun l => l ++ [0x20]) ++ 0x0A :: renderRows (i + 1) rest
+
+def renderItem (A : Alphabet) : Item → Bytes
+  | .ac v => renderField 0x41 0x43 v
+  | .id v => renderField 0x49 0x44 v
+  | .na v => renderField 0x4E 0x41 v
+  | .de v => renderField 0x44 0x45 v
+  | .xx => [0x58, 0x58, 0x0A]
+  | .matrix syms rows =>
+    0x50 :: 0x30 :: syms.flatMap (fun s => [0x20, A.letters.getD s 0]) ++ 0x0A :: renderRows 0 rows
+
+/-- a record: its items, then the `//` line -/
+def render1 (A : Alphabet) (items : List Item) : Bytes :=
+  items.flatMap (renderItem A) ++ [0x2F, 0x2F, 0x0A]
+
+def render (A : Alphabet) (rs : List (List Item)) : Bytes := rs.flatMap (render1 A)
+
+/-- the matrix a `P0` block must be read back as: the value of every lexeme in the row of its
+    position and the column of its symbol, other columns `zero` -/
+def expectData (A : Alphabet) (conv : Bytes → Option α) (zero : α) (syms : List Nat)
+    (rows : List (List Bytes)) : Mat α A.K :=
+  Mat.ofFn rows.length fun i j =>
+    match (syms.zip (rows.getD i [])).find? (·.1 == j) with
+    | some p => (conv p.2).getD zero
+    | none => zero
+
+/-- what one item contributes to the record -/
+def applyItem (A : Alphabet) (conv : Bytes → Option α) (zero : α) (r : TRecord α A.K) : Item → TRecord α A.K
+  | .ac v => { r with accession := some v }
+  | .id v => { r with id := some v }
+  | .na v => { r with name := some v }
+  | .de v => { r with description := some v }
+  | .xx => r
+  | .matrix syms rows => { r with data := some (expectData A conv zero syms rows) }
+
+/-- the record a list of items must be read back as -/
+def expect (A : Alphabet) (conv : Bytes → Option α) (zero : α) (items : List Item) : TRecord α A.K :=
+  items.foldl (applyItem A conv zero) {}
+
+/-- a field value: starts with an ASCII non-blank character, is trimmed, has no line feed, is
+    valid UTF-8 -/
+def WFField (v : Bytes) : Prop :=
+  (match v with
+   | b :: _ => b < 0x80 ∧ isWs1 b = false
+   | [] => False) ∧
+  trim v = v ∧ (∀ b ∈ v, b ≠ 0x0A) ∧ validUtf8 v = true
+
+instance (v : Bytes) : Decidable (WFField v) := by unfold WFField; cases v <;> infer_instance
+
+/-- well-formed item -/
+def WFItem (A : Alphabet) (conv : Bytes → Option α) : Item → Prop
+  | .ac v => WFField v
+  | .id v => WFField v
+  | .na v => WFField v
+  | .de v => WFField v
+  | .xx => True
+  | .matrix syms rows =>
+    syms ≠ [] ∧ (∀ s ∈ syms, s < A.K) ∧ syms.Nodup ∧ rows ≠ [] ∧ rows.length < 4294967295 ∧
+    (∀ row ∈ rows, row.length = syms.length ∧
+      ∀ lex ∈ row, Uniprobe.wfLex lex = true ∧ (conv lex).isSome = true)
+
+instance (A : Alphabet) (conv : Bytes → Option α) (it : Item) : Decidable (WFItem A conv it) := by
+  cases it <;> unfold WFItem <;> infer_instance
 
 end Transfac
 end LMV
